@@ -88,6 +88,8 @@ def corpus():
         {"fmt": mkfmt(), "blocks": [["other"]]},
         {"fmt": mkfmt(), "blocks": [["mwerror", e2], ["failed", "a\x85b\u2028c"]]},
         {"fmt": mkfmt(col=40, indent="    ", sep=" \n", tc=True), "blocks": [e2, ["string", "s", 5, "r"]]},
+        {"fmt": mkfmt(sep="\n%%\n"), "same_line": True,
+         "blocks": [["impl", "% ---", "% ---"], e2, ["impl", "% ---", "% ---"], ["preamble", "p", "r"], ["impl", "% ---", "% ---"]]},
     ]
     return cases
 
@@ -173,8 +175,18 @@ def gen(tier, rng):
     for c in COMMENTS:
         for raw in RAWS:
             yield {"fmt": mkfmt(comment=c), "blocks": [["failed", raw]]}
+    # libraries holding structurally EQUAL blocks (same comment / preamble / failed block several times, also last)
+    for n in (2, 3, 4):
+        for bs in itertools.product(SMALL_BLOCKS[:6], repeat=n):
+            if len(set(map(repr, bs))) < n:
+                yield {"fmt": SMALL_FMTS[(n + len(repr(bs))) % len(SMALL_FMTS)], "blocks": list(bs), "same_line": True}
     for _ in range(60000 if tier == "quick" else 500000):
-        yield {"fmt": _rand_fmt(rng), "blocks": [_rand_block(rng) for _ in range(rng.choice([0, 1, 1, 2, 2, 3, 3, 4, 5, 7]))]}
+        bl = [_rand_block(rng) for _ in range(rng.choice([0, 1, 1, 2, 2, 3, 3, 4, 5, 7]))]
+        c = {"fmt": _rand_fmt(rng), "blocks": bl}
+        if bl and rng.random() < 0.1:
+            bl.append(bl[rng.randrange(len(bl))])
+            c["same_line"] = True
+        yield c
 
 
 def fmt_sx(f):
@@ -204,13 +216,13 @@ def request(case):
     txt = W.all_text(case)
     if not lean_representable(txt):
         return None
-    lib = W.build_library(case["blocks"])
+    lib = W.build_library(case["blocks"], case.get("same_line", False))
     return wire_request("c06.write", fmt_sx(case["fmt"]), W.enc_items(lib.blocks), chars_of=txt)
 
 
 def impl(case):
     from bibtexparser import writer
-    lib = W.build_library(case["blocks"])
+    lib = W.build_library(case["blocks"], case.get("same_line", False))
     F = build_fmt(case["fmt"])
     try:
         res = [Sym("ok"), writer.write(lib, F)]
@@ -266,7 +278,7 @@ def oracle(case):
     from bibtexparser import model as M
     if not _writable(case):
         return None
-    lib = W.build_library(case["blocks"])
+    lib = W.build_library(case["blocks"], case.get("same_line", False))
     f = case["fmt"]
     F = build_fmt(f)
     before = [F.indent, F.value_column, F.block_separator, F.trailing_comma, F.parsing_failed_comment]
